@@ -802,6 +802,8 @@ def adapt_typehints(
             val = float(val)  # what the json dumps write for non-finite floats
         if not isinstance(val, typehint) or (typehint in (int, float) and isinstance(val, bool)):
             raise_unexpected_value(f"Expected a {typehint}", val)
+        if serialize and type(val) is not typehint and get_registered_type(type(val)):
+            val = get_registered_type(type(val)).serializer(val)  # e.g. a PositiveInt instance given for an int
 
     # Annotated
     elif is_annotated(typehint):
